@@ -41,12 +41,12 @@ CONF = {
     },
     "C15": {
         "rule": "rapid histories (5..35 ops) over all 25 transaction types (success and failure of each is required in every run), ledger changes, faults, multi-message transactions; a recording wrapper around the KVStoreService handed to the keeper logs every Set/Delete key per transaction; oracle: recorded keys and committed key diff of a successful transaction are inside the documented write set for that type and argument, failed transactions leave both stores byte-identical, all 19 queries and genesis export record no write; non-trivial = first success (or failure) of a transaction type within a case; distinct by (case shape, type, outcome)",
-        "quick": {"rapid": [("TestC15", 600, 1)]},
+        "quick": {"rapid": [("TestC15", 150, 4)]},
         "thorough": {"rapid": [("TestC15", 5000, 16)], "cover": ("TestC15", 1500)},
     },
     "C19": {
         "rule": "rapid histories (4..28 ops) of registry transactions over colliding-prone keys (same token under other domains, tokens one byte apart, denoms differing in case, attester spellings of one key) from genesis states with >=3 entries per registry; after every transaction: exported registries vs reference maps, single-item queries for every live entry (token pairs under 6 hex spellings) and for every named-but-absent key, all scalar queries; every 4th step: pagination sweeps of the five list queries for every page size 1..n+1 in key-cursor and offset mode, forward and reverse, total with count_total; non-trivial = case with a removal, a registry of >=3 entries and a sweep; distinct by op/outcome sequence",
-        "quick": {"rapid": [("TestC19", 300, 1)]},
+        "quick": {"rapid": [("TestC19", 100, 3)]},
         "thorough": {"rapid": [("TestC19", 1500, 16)]},
     },
     "C10": {
@@ -92,7 +92,7 @@ CONF = {
     },
     "C02": {
         "rule": "rapid-generated L2 histories (3..30 ops: fresh receives with 0..4 broken conditions, replays of earlier successes varying body/recipient/caller/attestation encoding/submitter/sender, pause, attester rotation, threshold change, un/re-link, messenger add/remove, multi-message transactions; genesis may pre-list pairs); after every transaction the single-item query of every tracked pair and its neighbours (swapped, +1, shifted), the full list query and the exported list are compared with the model set; non-trivial = history with a replay that is valid in every respect except the nonce of an earlier success; distinct by sequence of op labels and outcomes",
-        "quick": {"rapid": [("TestC02", 400, 1)]},
+        "quick": {"rapid": [("TestC02", 200, 2)]},
         "thorough": {"rapid": [("TestC02", 2500, 16)]},
     },
     "C03": {
